@@ -8,6 +8,7 @@ import Driver.Reader
 import Driver.IoFault
 import Driver.Snippet
 import Driver.ScalarRt
+import Driver.Calls
 /-!
 `modeldrv`: one request per line on stdin (`<area> <op> <args…>`), one answer per line on stdout.
 -/
@@ -25,6 +26,7 @@ def dispatch (line : String) : String :=
   | "iofault" :: rest => IoFault.handle rest
   | "snippet" :: rest => Snippet.handle rest
   | "scalarrt" :: rest => ScalarRt.handle rest
+  | "calls" :: rest => Calls.handle rest
   | _ => "bad-op"
 
 partial def loop (h : IO.FS.Stream) (out : IO.FS.Stream) : IO Unit := do
